@@ -203,6 +203,7 @@ def call_parse(case):
     st = decode_settings(case.get("settings"))
     res = {"out": [], "off": "naive", "period": "", "locale": "", "exc": "", "mro": []}
     res["clock0"] = dt_to_list(_dt.datetime.now())
+    res["uclock0"] = dt_to_list(_dt.datetime.now(_dt.timezone.utc).replace(tzinfo=None))
     try:
         if case.get("api", "ddp") == "parse":
             d = dateparser.parse(case["s"], settings=st, **kw)
@@ -223,6 +224,7 @@ def call_parse(case):
         res["exc"], res["mro"] = exc_name(e)
         res["msg"] = str(e)[:200]
     res["clock1"] = dt_to_list(_dt.datetime.now())
+    res["uclock1"] = dt_to_list(_dt.datetime.now(_dt.timezone.utc).replace(tzinfo=None))
     evs = []
     for rec in _state.events:
         sg = rec.get("sg")
